@@ -24,19 +24,24 @@ def run(rep: Report, repo: Repo):
     c03.capture_final(rep, repo)
     c04.capture_times(rep, repo)
     capture_rest(rep, repo, mod)
-    overflow(rep, repo)
+    from checks import kernel_eval
+    ke = kernel_eval.decide(rep, repo, 'C13', ('activity', 'overflow'))
+    kernel_eval.with_fallback(rep, ke, 'C13', lambda: overflow(rep, repo))
     act = False
     try:
         act = activity_evaluated(rep, repo, mod)
     except ModelError as e:
         rep.note(f'C13.count: the activity computation is outside the evaluated subset ({e}); the structural rules C13.count / C13.accumulate decide')
     if not act:
-        counts(rep, repo)
-    accumulation(rep, repo, mod, kernel_side=not act)
+        kernel_eval.with_fallback(rep, ke, 'C13', lambda: counts(rep, repo))
+    kernel_eval.with_fallback(rep, ke, 'C13', lambda: accumulation(rep, repo, mod, kernel_side=not act))
 
 
 def capture_rest(rep, repo, mod):
     rep.rule('C13.capture', 'capture: val toggles for entries with t < time (strict); overflow flag set iff the terminator is TMAX_OVL; with sd = 0 the capture value is val; result positions match s[3..10]')
+    from checks import capture_eval
+    if capture_eval.decide(rep, repo, 'C13.capture', (3, 4, 5, 6, 7, 8, 9, 10)):
+        return          # decided by evaluating both c_to_s implementations on a family of waveforms
     _, loops = c03.capture_loops(repo)
     for side, f, loop, lb in loops:
         vs = [s for s in ast.walk(loop) if isinstance(s, ast.AugAssign) and is_name(s.target, 'val')]
@@ -238,7 +243,7 @@ def activity_evaluated(rep, repo, mod):
 
 def _activity_evaluated(rep, repo, mod):
     """C13.count / C13.accumulate decided together by evaluation (Engine M; integers only): the statements of _wave_eval behind its event loop are evaluated for every
-    waveform length 0..64 with and without a leading TMIN entry, the value they return is handed to the accumulation statements of level_eval_cpu and wave_eval_gpu, and
+    waveform length 0..64 with and without a leading TMIN entry (and with stale entries - also TMIN - left behind the waveform by an earlier propagation), the value they return is handed to the accumulation statements of level_eval_cpu and wave_eval_gpu, and
     what reaches abuf must be rises x (column 7) + falls x (column 8) of the op, at row column 6, exactly when that row is >= 0. Returns False when the code is outside the subset."""
     from kvstatic import minieval
     NS, Rec, stub = minieval.NS, minieval.Rec, minieval.stub
@@ -258,12 +263,15 @@ def _activity_evaluated(rep, repo, mod):
         for tm in (0, 1):
             if tm and z == 0:
                 continue
-            for a_loc in (3, 0, -1):
+            for a_loc, stale in ((3, None), (0, TMIN), (-1, None), (3, TMIN), (0, 7.0)):
                 n += 1
                 rises, falls = (z + 1) // 2 - tm, z // 2
                 cb = Rec()
                 for k in range(z):
                     cb.put((k, 0), TMIN if (k == 0 and tm) else 5.0 + k)
+                if stale is not None:
+                    for k in range(z, z + 3):
+                        cb.put((k, 0), stale)        # what an earlier propagation (or a cancelled initial marker) left behind the waveform
                 op = [0, 0, 0, 0, 0, 0, a_loc, WR, WF]
                 env = dict(base)
                 env.update({'z_cur': z, 'cbuf': cb, 'op': op})
@@ -279,6 +287,7 @@ def _activity_evaluated(rep, repo, mod):
                         added = []
                         cuda = NS(grid=stub(lambda k_: (0, 0)), atomic=NS(add=stub(lambda arr, idx, v: added.append((minieval.freeze(idx), v)))))
                         e2 = {kern: stub(lambda *a_: ret), 'cuda': cuda}
+                        minieval.module_functions(mod.tree, e2)       # helpers of the module (and their compiled aliases) the accumulation sites call
                         args = {'ops': [op], 'op_start': 0, 'op_stop': 1, 'c': Rec(), 'cbuf': Rec(), 'c_locs': Rec(), 'c_caps': Rec(), 'abuf': ab, 'sim_start': 0, 'sim_stop': 1,
                                 'delays': Rec(), 'simctl_int': Rec(), 'seed': 0}
                         minieval.call_function(fn, [args[a.arg] for a in fn.args.args], e2)
@@ -402,11 +411,7 @@ def depends(rep, repo):
     (C01.wiring, evaluated): both are part of this check. Rule ids keep their prefix."""
     from checks import c01, c03
     from kvstatic.wavekernel import Kernel
-    K = Kernel(repo)
-    c03.initial_value(rep, K)
-    c03.parity(rep, K)
-    c03.bounds(rep, K)
-    c03.siblings(rep, K)
+    c03.kernel_rules(rep, repo)
     c01.wiring_rules(rep, repo)
     # the capture routines read `c_caps[...]` entries of the waveform at `c_locs[...]`: location and capacity tables of the memory map (C08)
     from checks import c08
